@@ -1,22 +1,27 @@
 use super::super::fe::load::{load_3i, load_4i};
 
+/// Scalar in the field ℤ/(2^252 + 27742317777372353535851937790883648493)
 #[derive(Clone, Debug, PartialEq, Eq)]
 pub struct Scalar([u8; 32]);
 
 impl Scalar {
+    /// The scalar 0
     pub const ZERO: Self = Scalar([
         0, 0, 0, 0, 0, 0, 0, 0, 0, 0, 0, 0, 0, 0, 0, 0, 0, 0, 0, 0, 0, 0, 0, 0, 0, 0, 0, 0, 0, 0,
         0, 0,
     ]);
 
+    /// Create a scalar from its little-endian byte representation, without checking that it is canonical
     pub const fn from_bytes(bytes: &[u8; 32]) -> Self {
         Scalar(*bytes)
     }
 
+    /// Little-endian byte representation of the scalar
     pub const fn to_bytes(&self) -> [u8; 32] {
         self.0
     }
 
+    /// Create a scalar from its little-endian byte representation, if it is lower than the group order
     pub fn from_bytes_canonical(bytes: &[u8; 32]) -> Option<Self> {
         const L: [u8; 32] = [
             0x10, 0x00, 0x00, 0x00, 0x00, 0x00, 0x00, 0x00, 0x00, 0x00, 0x00, 0x00, 0x00, 0x00,
